@@ -7,6 +7,14 @@ list (`int` = RL action, `["reset", seed|None]` = env.reset) and prints one cano
 agent histories at every reset and at the end.  Opaque identifiers (uuid4 strings, MAC addresses) are renamed to their
 first-seen index over the whole output; timestamps are erased.  The parent diffs the streams line by line.
 
+Every `new` / `reset` line and every histories line also carries `rng`: digests of the states of python's `random`, numpy's
+global generator and torch's CPU generator at that moment ("the generators right after reset(seed=s) are the same in every
+process and after every history" is compared through them).
+
+`pick_hashseeds` chooses PYTHONHASHSEED values under which the string vocabularies of a scenario (host names, addresses, every
+list of strings in the config) are iterated in pairwise DIFFERENT set orders, so that a `list(set(names))` feeding an
+index-based choice cannot hide behind two interpreters that happen to agree.
+
 The worker half (`python -m harness.rigs.xproc`) imports primaite; the parent half does not.
 """
 from __future__ import annotations
@@ -88,6 +96,26 @@ def _item(it) -> Any:
             "r": None if it.reward is None else float(it.reward).hex()}
 
 
+def rng_digest() -> Dict[str, str]:
+    """Digests of the global generator states (python random, numpy global, torch CPU if imported)."""
+    import hashlib
+    import random as _random
+    out = {"py": hashlib.sha1(repr(_random.getstate()).encode()).hexdigest()[:12]}
+    try:
+        import numpy as np
+        st = np.random.get_state()
+        out["np"] = hashlib.sha1(st[1].tobytes() + repr(st[2:]).encode()).hexdigest()[:12]
+    except Exception:  # pragma: no cover
+        pass
+    th = sys.modules.get("torch")
+    if th is not None:
+        try:
+            out["torch"] = hashlib.sha1(th.get_rng_state().numpy().tobytes()).hexdigest()[:12]
+        except Exception:
+            pass
+    return out
+
+
 # ------------------------------------------------------------------------------------------------ worker
 def _pin(pin: Dict):
     """In-process wrappers (no hooks in the repository): a clock whose microsecond field is fixed, a fixed ICMP identifier."""
@@ -140,15 +168,16 @@ def worker_main() -> int:
         env = PrimaiteGymEnv(env_config=cfg)
 
         def hist():
-            return {"histories": {n: [_item(i) for i in a.history] for n, a in env.game.agents.items()}}
+            return {"histories": {n: [_item(i) for i in a.history] for n, a in env.game.agents.items()}, "rng": rng_digest()}
 
-        emit({"op": "new", "agents": list(env.game.agents), "order_deps_first": _order_ok(env.game)})
+        emit({"op": "new", "agents": list(env.game.agents), "order_deps_first": _order_ok(env.game), "rng": rng_digest(),
+              "obs": _plain(env._get_obs())})
         for op in spec["ops"]:
             if isinstance(op, list) and op and op[0] == "reset":
                 emit(hist())
                 canon.ids.clear()  # identifiers are numbered per episode (the new game shares none with the old one)
                 obs, info = env.reset(seed=op[1])
-                emit({"op": "reset", "obs": _plain(obs)})
+                emit({"op": "reset", "seed": op[1], "obs": _plain(obs), "rng": rng_digest()})
                 continue
             obs, reward, term, trunc, info = env.step(op)
             if not _order_ok(env.game):
@@ -252,6 +281,82 @@ def run_workers(spec: Dict, variants: List[Dict], repo: Path, verif: Path, timeo
         return res
     finally:
         shutil.rmtree(tmp_root, ignore_errors=True)
+
+
+_ORDER_PROBE = ("import json,sys\n"
+                "v=json.loads(sys.stdin.read())\n"
+                "print(json.dumps([list(set(l)) for l in v]))\n")
+
+
+def string_vocabularies(cfg: Any, cap: int = 40) -> List[List[str]]:
+    """Every list of >= 2 distinct strings in the config (host lists, start nodes, target addresses, …), plus all host names and all
+    addresses: the candidates for `set(...)` in the code under test."""
+    out: List[List[str]] = []
+    seen = set()
+
+    def add(l):
+        l = sorted(set(l))
+        if len(l) >= 2 and tuple(l) not in seen and len(out) < cap:
+            seen.add(tuple(l))
+            out.append(l)
+
+    hosts, ips = [], []
+
+    def rec(x):
+        if isinstance(x, dict):
+            if isinstance(x.get("hostname"), str):
+                hosts.append(x["hostname"])
+            if isinstance(x.get("ip_address"), str):
+                ips.append(x["ip_address"])
+            for v in x.values():
+                rec(v)
+        elif isinstance(x, list):
+            if x and all(isinstance(e, str) for e in x):
+                add(x)
+            for v in x:
+                rec(v)
+    rec(cfg)
+    add(hosts)
+    add(ips)
+    return out
+
+
+def pick_hashseeds(vocabs: List[List[str]], n: int, candidates: List[int]) -> Tuple[List[int], Dict[str, int]]:
+    """Among `candidates`, n PYTHONHASHSEED values whose set-iteration orders of the vocabularies differ from each other on as many
+    vocabularies as possible (greedy). Returns (seeds, {"vocabularies": …, "distinguished": number of vocabularies on which the chosen
+    seeds do not all agree})."""
+    if not vocabs:
+        return candidates[:n], {"vocabularies": 0, "distinguished": 0}
+    procs = []
+    for hs in candidates:
+        env = {"PATH": os.environ.get("PATH", ""), "PYTHONHASHSEED": str(hs)}
+        p = subprocess.Popen([sys.executable, "-S", "-E", "-c", _ORDER_PROBE], env=env, stdin=subprocess.PIPE, stdout=subprocess.PIPE,
+                             stderr=subprocess.DEVNULL, text=True)
+        p.stdin.write(json.dumps(vocabs))
+        p.stdin.close()
+        procs.append((hs, p))
+    orders: Dict[int, List[List[str]]] = {}
+    for hs, p in procs:
+        try:
+            orders[hs] = json.loads(p.stdout.read())
+            p.wait(timeout=60)
+        except Exception:
+            p.kill()
+    cands = [c for c in candidates if c in orders]
+    if not cands:
+        return candidates[:n], {"vocabularies": len(vocabs), "distinguished": 0}
+    chosen = [cands[0]]
+    while len(chosen) < n and len(chosen) < len(cands):
+        def score(c):
+            # number of vocabularies on which c differs from EVERY chosen seed, then from at least one
+            every = sum(1 for i in range(len(vocabs)) if all(orders[c][i] != orders[d][i] for d in chosen))
+            some = sum(1 for i in range(len(vocabs)) if any(orders[c][i] != orders[d][i] for d in chosen))
+            return (every, some)
+        best = max((c for c in cands if c not in chosen), key=score)
+        chosen.append(best)
+    dist = sum(1 for i in range(len(vocabs)) if len({tuple(orders[c][i]) for c in chosen}) > 1)
+    return chosen, {"vocabularies": len(vocabs), "distinguished": dist,
+                    "pairwise_all_differ": sum(1 for i in range(len(vocabs)) if len({tuple(orders[c][i]) for c in chosen}) == len(chosen))}
 
 
 def first_diff(a: List[str], b: List[str]) -> Optional[int]:
